@@ -6,8 +6,14 @@
    coordinate / corner / span / jagged input.  No bound on width or height and
    no relation between them (rectangular exactly as square).
 
-   Methods that write return (array after the call, panic of the call if any). *)
+   Methods that write return (array after the call, panic of the call if any).
+
+   Panic kinds: the property only says "panics".  The model has one kind, [IndexOutOfRange],
+   for the explicit bounds guards of array2d.go and for Go's own index / slice-bounds panics
+   alike; read [Panic IndexOutOfRange] / [Some IndexOutOfRange] below as "panics".  The
+   correspondence check does not compare kinds either (Arrays/Array2DCheck.v, [res_eqb]). *)
 From Typ Require Import Lib.Base Arrays.Array2D Arrays.Array2DProofs Arrays.Array2DCheck.
+From Typ Require Slices.Splice.
 Local Open Scope Z_scope.
 
 (* The index x + y*width used by all six sites stays inside the backing slice
@@ -130,6 +136,24 @@ Theorem C08_cell_model : forall (A : Type) (ks : list (call A)) (a : array2d A) 
 Proof. exact @run_calls_refine. Qed.
 Print Assumptions C08_cell_model.
 
+(* slices.Fill is transcribed twice in this development: here on a window (off, n) of the
+   backing list, and in Slices/Splice.v (property C12) on a slice = (backing array from its
+   first element, length).  The window (off, n) of [c] is the C12 slice [GS (skipn off c) n];
+   both transcriptions compute the same array, and nothing before the window changes.  So
+   C08_fill_in / C08_new2d_filled and C12's Fill theorem speak about the same function. *)
+Theorem C08_slices_fill_is_splice_fill : forall (A : Type) (v : A) (c : list A) (off n : nat),
+  (off + n <= length c)%nat ->
+  exists c', slices_fill c (off, n) v = (c', None) /\
+    Splice.fill (Splice.GS (skipn off c) n) v = Ok (Splice.GS (skipn off c') n) /\
+    firstn off c' = firstn off c /\ length c' = length c.
+Proof. exact @slices_fill_is_splice_fill. Qed.
+Print Assumptions C08_slices_fill_is_splice_fill.
+
+Example C08_slices_fill_example :
+  slices_fill [1;2;3;4;5;6;7] (1%nat, 5%nat) 9 = ([1;9;9;9;9;9;7], None) /\
+  Splice.fill (Splice.GS [2;3;4;5;6;7] 5) 9 = Ok (Splice.GS [9;9;9;9;9;7] 5).
+Proof. vm_compute. split; reflexivity. Qed.
+
 (* Constructors: well-formed, of the requested shape, cells as the cell model says. *)
 Theorem C08_new2d : forall (A : Type) (zero : A) w h, 0 <= w -> 0 <= h ->
   exists a, new2d zero w h = Ok a /\ wf a /\ width a = w /\ height a = h /\
@@ -156,11 +180,13 @@ Theorem C08_new2d_from_jagged : forall (A : Type) (zero : A) w h (jagged : list 
 Proof. exact @new2d_from_jagged_spec. Qed.
 Print Assumptions C08_new2d_from_jagged.
 
-(* Clone: same shape, same cells (that the two do not share memory is a fact
-   about Go values the functional model cannot express; the harness probes it). *)
-Theorem C08_clone : forall (A : Type) (zero : A) (a : array2d A), clone zero a = a.
+(* Clone: EQUAL CONTENTS only (same shape, same cells).  In this functional model a clone is a
+   value, so "independent of the original" cannot even be stated here: that the real Clone
+   shares no memory with the original is checked by the harness only (it writes the clone and
+   re-reads the original, and vice versa, on every Clone it makes). *)
+Theorem C08_clone_equal_contents : forall (A : Type) (zero : A) (a : array2d A), clone zero a = a.
 Proof. exact @clone_spec. Qed.
-Print Assumptions C08_clone.
+Print Assumptions C08_clone_equal_contents.
 
 (* String prints height rows of width values, the value at (x,y) being Get(x,y). *)
 Theorem C08_string : forall (A : Type) (a : array2d A), wf a ->
